@@ -206,6 +206,21 @@ func (g *genCtx) genUpload(ci int, o attOpts) {
 				rounds = [][]ch{withheld[:k], withheld[k:]}
 			}
 			for _, rd := range rounds {
+				if o.dups && len(chunks) > len(withheld) && g.r.chance(25) {
+					for _, c := range chunks { // re-send one the server already has, first thing after the 0x1212
+						held := false
+						for _, w := range withheld {
+							if w == c {
+								held = true
+							}
+						}
+						if !held {
+							emit(c)
+							p.Faults = append(p.Faults, "pkt.dup_after_retransmit")
+							break
+						}
+					}
+				}
 				for _, c := range rd {
 					emit(c)
 				}
